@@ -145,10 +145,12 @@ func (r RuleSet) String() string {
 }
 
 func parseSnooze(s string) (snz Snooze, err error) {
-	parts := strings.SplitN(s, " ", 2)
-	if len(parts) != 2 {
+	// $TIME and $MATCH are separated by whitespace, any amount of it, like everything else in a comment.
+	idx := strings.IndexAny(s, " \t")
+	if idx < 0 {
 		return Snooze{}, fmt.Errorf("invalid snooze comment, expected '$TIME $MATCH' got %q", s)
 	}
+	parts := []string{s[:idx], strings.TrimSpace(s[idx:])}
 
 	snz.Match = parts[1]
 	snz.Until, err = time.Parse(time.RFC3339, parts[0])
